@@ -423,7 +423,7 @@ class Interp(object):
                                  getattr(st.cur_func(), 'qualname', None)))
         kind = 'bytes' if meth in ('encode', 'a2b_hex', 'unhexlify', 'to_bytes', 'join') and \
             (meth != 'join' or target.startswith("b'")) else None
-        if self.unique_opaque_calls and isinstance(fv, FuncV):
+        if self.unique_opaque_calls and (isinstance(fv, FuncV) or self.unique_opaque_calls == 'all'):
             st.counter += 1
             return [('val', Opaque('%s()#%d@%s' % (d, st.counter, line), kind), st)]
         if meth in ('encode',) and args == [] or meth == 'encode':
